@@ -216,7 +216,7 @@ def check_function(ctx, spec, rng, ci):
                 finally:
                     jax.config.update("jax_enable_checks", True)
             ctx.violation(
-                f"C09|op=incremental|on={','.join(fclass[:3]) or 'straight-line'}|field=raises|cond={mode},{wr},{common.exc_mechanism(e)}",
+                f"C09|op=incremental|on=interpreter|field=raises|cond={mode},{wr},{common.exc_mechanism(e)}",
                 detail=f"{type(e).__name__}: {str(e)[:400]}", tagging=tag_desc, **witness,
             )
             return False, None
@@ -283,6 +283,10 @@ def check_function(ctx, spec, rng, ci):
     if mixed and len(mixed) > 1 and ctx.tier == "thorough" and rng.random() < 0.5:
         chosen.append(mixed[int(rng.integers(len(mixed)))])
     chosen = list(dict.fromkeys(chosen))
+    if ctx.tier != "thorough" and ci % 2 == 1:
+        # op-by-op interpretation compiles every control-flow primitive anew: every second function
+        # in the quick tier (tags of all taggings are judged in trace mode, values in jit mode)
+        chosen = []
     for U in chosen:
         tg = tangents_for(U)
         ok, out = run_guarded(lambda: incremental(f)(None, primals, tg), "eager", desc(U))
@@ -292,7 +296,7 @@ def check_function(ctx, spec, rng, ci):
         if flat is None:
             continue
         fp("eager", U)
-        _compare_values(ctx, ref, flat, ref.eager[0], primal_of, "eager", wr, desc(U), witness, check_dtype=True)
+        _compare_values(ctx, ref, flat, ref.eager[0], primal_of, "eager", wr, desc(U), witness, check_dtype=shape_ref)
         # genjax's own accessor must agree with the leaves
         try:
             tp = jtu.tree_leaves(Diff.tree_primal(out))
@@ -324,7 +328,7 @@ def check_function(ctx, spec, rng, ci):
             fp("jit", U)
             w2 = dict(witness)
             w2["inputs"] = {k: np.asarray(v).tolist() for k, v in spec.input_sets[si].items()}
-            _compare_values(ctx, ref, flat, ref.jit[si], primal_of, "jit", wr, desc(U), w2, check_dtype=True)
+            _compare_values(ctx, ref, flat, ref.jit[si], primal_of, "jit", wr, desc(U), w2, check_dtype=shape_ref)
             if si == 0:
                 judge_tags(tags_of(flat), U, "jit", desc(U))
     lap("jit")
@@ -332,6 +336,8 @@ def check_function(ctx, spec, rng, ci):
 
 
 def _compare_values(ctx, ref, flat, expected, primal_of, mode, wr, tag_desc, witness, check_dtype):
+    import jax
+
     for j, x in enumerate(flat):
         p = primal_of(x)
         e = expected[j]
@@ -351,8 +357,97 @@ def _compare_values(ctx, ref, flat, expected, primal_of, mode, wr, tag_desc, wit
                 detail=f"output leaf {j} ({cls}): interpreter primal {common.short(pa.tolist())} != ordinary evaluation {common.short(np.asarray(e).tolist())}",
                 tagging=tag_desc, **witness,
             )
-        elif check_dtype and not ref.is_lit[j] and not O.same_aval(e, pa):
-            ctx.violation(f"C09|op=incremental|on={cls}|field=dtype|cond={mode},{wr}", detail=f"output leaf {j}: dtype {pa.dtype} vs ordinary evaluation {np.asarray(e).dtype}", tagging=tag_desc, **witness)
+        elif check_dtype is not None and not ref.is_lit[j]:
+            # dtype: only for leaves that are jax arrays (a closed-over numpy constant that never meets a
+            # jax operation is handed back as the numpy object it was, exactly as f itself does)
+            if isinstance(p, jax.Array):
+                ctx.count("c09_dtype_checks")
+                if p.dtype != check_dtype[j].dtype:
+                    ctx.violation(f"C09|op=incremental|on={cls}|field=dtype|cond={mode},{wr}", detail=f"output leaf {j}: dtype {p.dtype} vs ordinary evaluation {check_dtype[j].dtype}", tagging=tag_desc, **witness)
+            else:
+                ctx.count("c09_dtype_checks_skipped_non_jax_leaf")
+
+
+def check_corpus(ctx, name, f, args):
+    """Fixed hand-written functions (PRNG keys, transforms inside, None/empty/bare outputs, dtype
+    zoo): every tagging, eager interpretation (values + tags) and one jitted interpretation."""
+    import jax
+    import jax.tree_util as jtu
+    from genjax._src.core.compiler.interpreters.incremental import Diff, NoChange, UnknownChange, incremental
+
+    NoT, UnT = type(NoChange), type(UnknownChange)
+    leaves, treedef = jtu.tree_flatten(args)
+    L = len(leaves)
+    ref_out = f(*args)
+    ref_leaves = jtu.tree_leaves(ref_out)
+    jf = jax.jit(f)
+    base_row = jtu.tree_leaves(jf(*args))
+    struct = O.struct_of(ref_out)
+    on = "corpus-" + name
+    witness = dict(program=f"vf.gen.jaxfns.corpus() entry {name!r}")
+    ctx.count("c09_corpus_functions")
+
+    def tangents_for(U):
+        return jtu.tree_unflatten(treedef, [UnknownChange if i in U else NoChange for i in range(L)])
+
+    def moved_for(U):
+        mv = set()
+        for k in range(4):
+            vals = [G.perturb_any(x, k) if i in U else x for i, x in enumerate(leaves)]
+            row = jtu.tree_leaves(jf(*jtu.tree_unflatten(treedef, vals)))
+            ctx.count("c09_perturbation_rows")
+            for j in range(len(base_row)):
+                if not O.identical_any(base_row[j], row[j]):
+                    mv.add(j)
+        return mv
+
+    def judge(out, expected, U, mode):
+        desc = ["UnknownChange" if i in U else "NoChange" for i in range(L)]
+        flat = jtu.tree_leaves(out, is_leaf=Diff.is_diff)
+        if O.struct_of(out, is_leaf=Diff.is_diff) != struct or len(flat) != len(expected):
+            ctx.violation(f"C09|op=incremental|on={on}|field=structure|cond={mode}", detail=f"output tree {O.struct_of(out, is_leaf=Diff.is_diff)} vs ordinary evaluation {struct}", tagging=desc, **witness)
+            return
+        ctx.evaluation(fingerprint=(on, len(U), mode), nontrivial=0 < len(U) < L)
+        ctx.count("mode:corpus-" + mode)
+        mv = moved_for(U) if U else set()
+        for j, x in enumerate(flat):
+            p = x.primal if isinstance(x, Diff) else x
+            ctx.count("c09_primal_leaves_compared")
+            if not O.same_value_any(expected[j], p):
+                ctx.violation(f"C09|op=incremental|on={on}|field=primal|cond={mode}", detail=f"output leaf {j}: {common.short(p)} vs ordinary evaluation {common.short(expected[j])}", tagging=desc, **witness)
+            if isinstance(x, Diff):
+                t = _tag_name(x.tangent, NoT, UnT)
+                if t == "?":
+                    ctx.violation(f"C09|op=incremental|on={on}|field=tag-type|cond={mode}", detail=f"output leaf {j}", tagging=desc, **witness)
+                elif t == "N":
+                    if U:
+                        ctx.count("c09_nochange_leaves_perturbed")
+                    if j in mv:
+                        ctx.violation(f"C09|op=incremental|on={on}|field=nochange-tag|cond=moves-under-perturbation,{mode}", detail=f"output leaf {j} is tagged NoChange but moves when the UnknownChange inputs are perturbed", tagging=desc, **witness)
+                elif j in mv:
+                    ctx.count("c09_unknown_leaves_that_moved")
+            else:
+                ctx.count("c09_untagged_outputs")
+                if j in mv:
+                    ctx.violation(f"C09|op=incremental|on={on}|field=untagged-output|cond=moves-under-perturbation,{mode}", detail=f"un-tagged output leaf {j} depends on a changed input", tagging=desc, **witness)
+
+    subsets = [frozenset(i for i, b in enumerate(bits) if b) for bits in itertools.product([0, 1], repeat=L)]
+    for U in subsets:
+        tg = tangents_for(U)
+        try:
+            out = incremental(f)(None, args, tg)
+        except Exception as e:
+            ctx.violation(f"C09|op=incremental|on={on}|field=raises|cond=eager,{common.exc_mechanism(e)}", detail=f"{type(e).__name__}: {str(e)[:300]}", **witness)
+            continue
+        judge(out, ref_leaves, U, "eager")
+    U = subsets[len(subsets) // 2]
+    tg = tangents_for(U)
+    try:
+        out = jax.jit(lambda *p: incremental(f)(None, p, tg))(*args)
+    except Exception as e:
+        ctx.violation(f"C09|op=incremental|on={on}|field=raises|cond=jit,{common.exc_mechanism(e)}", detail=f"{type(e).__name__}: {str(e)[:300]}", **witness)
+        return
+    judge(out, base_row, U, "jit")
 
 
 def run(ctx):
@@ -362,6 +457,9 @@ def run(ctx):
     if ctx.shard % 4 == 1:
         jax.config.update("jax_enable_checks", True)
         ctx.count("shards_with_jax_enable_checks")
+    for k, (name, f, args) in enumerate(G.corpus()):
+        if k % ctx.nshards == ctx.shard:
+            check_corpus(ctx, name, f, args)
     n = ctx.pick(150, 2500)
     budget = ctx.pick(70.0, 780.0)
     for ci in ctx.my_share(n):
